@@ -401,6 +401,11 @@ def _gen_stat(rng, with_trend: bool) -> dict:
             kind = rng.choice(["rw", "rwlog"]) if not want_linear else "rw"
             nm = rng.choice([t for t in _TREND if t not in [x["name"] for x in trend]])
             trend.append({"name": nm, "kind": kind})
+    # unit roots WITHOUT drift whose steady level is pinned by a separate steady version:  pw = pw{-1} + e !! pw = ss_pw
+    pinned = []
+    if rng.random() < (0.45 if want_linear else 0.25):
+        for pnm in rng.sample(["pw", "pv"], rng.choice([1, 1, 2])):
+            pinned.append({"name": pnm, "log": rng.random() < 0.3})
     for i, nm in enumerate(names):
         others = [o for o in names if o != nm]
         deps = rng.sample(others, min(len(others), rng.choice([0, 1, 1, 2])))
@@ -415,6 +420,11 @@ def _gen_stat(rng, with_trend: bool) -> dict:
             a = f"a_{nm}_{d}"
             params[a] = _coef(rng, 0.25)
             terms.append(mul(par(a), term(d, rng.choice([-1, 0, 0, 1]))))
+        if pinned and rng.random() < 0.5:
+            t = rng.choice(pinned)
+            a = f"a_{nm}_{t['name']}"
+            params[a] = _coef(rng, 0.3)
+            terms.append(mul(par(a), flog(var(t["name"], rng.choice([0, -1]))) if t["log"] else var(t["name"], rng.choice([0, -1]))))
         if trend and rng.random() < 0.5:
             t = rng.choice(trend)
             a = f"a_{nm}_{t['name']}"
@@ -464,9 +474,22 @@ def _gen_stat(rng, with_trend: bool) -> dict:
             eq = {"lhs": var(nm), "rhs": rhs}
         eq["form"] = form
         eq["own"] = nm
-        # a different steady-state version after `!!`: the same equation without its shock
-        if rng.random() < 0.2:
+        # a different steady-state version after `!!`: the same equation without its shock, or a MATERIALLY different
+        # one that pins the steady level by its own parameter (`dynamic !! x = ss_x`, optionally plus the cross terms)
+        r_st = rng.random()
+        if r_st < 0.15:
             eq["steady"] = {"lhs": eq["lhs"], "rhs": _drop_shocks(eq["rhs"])}
+        elif r_st < 0.4 and form in ("lin", "loglin", "geo"):
+            ss = f"ss_{nm}"
+            params[ss] = _r(rng, 0.5, 2.5)
+            keep = [_drop_shocks(t) for t in terms] if rng.random() < 0.4 else []
+            if form == "loglin":
+                eq["steady"] = {"lhs": flog(var(nm)), "rhs": sum_terms([flog(par(ss))] + keep)}
+            elif form == "geo":
+                eq["steady"] = {"lhs": var(nm), "rhs": (mul(par(ss), fexp(sum_terms(keep))) if keep else par(ss))}
+            else:
+                eq["steady"] = {"lhs": var(nm), "rhs": sum_terms([par(ss)] + keep)}
+            eq["pin_param"] = ss
         eqs.append(eq)
     allnames = list(names)
     for t in trend:
@@ -499,6 +522,18 @@ def _gen_stat(rng, with_trend: bool) -> dict:
                 other = var(d, 0) if d in logs else fexp(var(d, 0))
                 eqs.append({"lhs": var(f), "rhs": mul(var(nm), other), "form": "followlog", "own": f})
             allnames.append(f)
+    for t in pinned:
+        nm, e, ss = t["name"], f"e_{t['name']}", f"ss_{t['name']}"
+        shocks.append(e)
+        params[ss] = _r(rng, 0.5, 2.5)
+        if t["log"]:
+            logs.append(nm)
+            eqs.append({"lhs": flog(var(nm)), "rhs": add(flog(var(nm, -1)), shk(e)), "form": "rwpin", "own": nm,
+                        "steady": {"lhs": flog(var(nm)), "rhs": flog(par(ss))}, "pin_param": ss})
+        else:
+            eqs.append({"lhs": var(nm), "rhs": add(var(nm, -1), shk(e)), "form": "rwpin", "own": nm,
+                        "steady": {"lhs": var(nm), "rhs": par(ss)}, "pin_param": ss})
+        allnames.append(nm)
     # measurement variables / equations (observed = state + constant + measurement shock)
     mvars, mshocks, meqs = [], [], []
     if rng.random() < 0.35:
@@ -513,7 +548,7 @@ def _gen_stat(rng, with_trend: bool) -> dict:
                 rhs.append(shk(me))
             meqs.append({"lhs": var(nm), "rhs": sum_terms(rhs), "form": "meas", "own": nm})
             mvars.append(nm)
-    linear_ok = all(e["form"] in ("lin", "loglin", "rw", "follow") for e in eqs)
+    linear_ok = all(e["form"] in ("lin", "loglin", "rw", "follow", "rwpin") for e in eqs)
     order = list(range(len(eqs)))
     rng.shuffle(order)
     eqs = [eqs[i] for i in order]
@@ -613,8 +648,81 @@ def _gen_values(rng, spec):
     spec["start"] = start
 
 
+PLAN_METHODS = ("exogenize", "unexogenize", "endogenize", "unendogenize", "fix_level", "unfix_level", "fix_change",
+                "unfix_change", "fix", "unfix", "swap", "unswap")
+
+
+def effective_plan(calls, flat: bool) -> dict:
+    """what a history of SteadyPlan calls MEANS (stated independently of the implementation): each call switches the
+    named quantities on/off in one register, the last call wins; fix/unfix = level, and in growth mode also change;
+    swap((a, b)) = exogenize a + endogenize b"""
+    on = {k: {} for k in ("exogenize", "endogenize", "fix_level", "fix_change")}
+
+    def names_of(a):
+        return [a] if isinstance(a, str) else list(a)
+    for meth, arg in calls:
+        status = not meth.startswith("un")
+        base = meth[2:] if meth.startswith("un") else meth
+        if base == "swap":
+            for a, b in arg:
+                on["exogenize"][a] = status
+                on["endogenize"][b] = status
+        elif base == "fix":
+            for n in names_of(arg):
+                on["fix_level"][n] = status
+                if not flat:
+                    on["fix_change"][n] = status
+        else:
+            for n in names_of(arg):
+                on[base][n] = status
+    return {k: [n for n, v in d.items() if v] for k, d in on.items()}
+
+
+def _plan_calls(rng, spec):
+    """a history of public SteadyPlan calls whose meaning is spec['plan']: combined and separate calls (fix / fix_level +
+    fix_change / swap), names one by one or as lists, plus calls that are undone again later"""
+    plan, flat = spec["plan"], spec["flat"]
+    calls = []
+    exo, endo = list(plan["exogenize"]), list(plan["endogenize"])
+    fl, fc = list(plan["fix_level"]), list(plan["fix_change"])
+    while exo and endo and rng.random() < 0.5:
+        calls.append(["swap", [[exo.pop(0), endo.pop(0)]]])
+    both = [n for n in fl if (n in fc or flat)]
+    for n in both:
+        if rng.random() < 0.75:
+            calls.append(["fix", n if rng.random() < 0.7 else [n]])
+            fl.remove(n)
+            if n in fc:
+                fc.remove(n)
+    for k, ns in (("exogenize", exo), ("endogenize", endo), ("fix_level", fl), ("fix_change", fc)):
+        if len(ns) > 1 and rng.random() < 0.5:
+            calls.append([k, list(ns)])
+        else:
+            calls += [[k, n] for n in ns]
+    rng.shuffle(calls)
+    # calls that are undone again (before or after the calls that matter, never overriding them)
+    used = set(plan["exogenize"] + plan["fix_level"] + plan["fix_change"])
+    free = [n for n in spec["vars"] if n not in used]
+    if free and rng.random() < 0.4:
+        n = rng.choice(free)
+        do, undo = rng.choice([("fix", "unfix"), ("fix_level", "unfix_level"), ("exogenize", "unexogenize"),
+                               ("fix", "unfix")] + ([] if flat else [("fix_change", "unfix_change")]))
+        i = rng.randrange(len(calls) + 1)
+        calls.insert(i, [do, n])
+        calls.insert(rng.randrange(i + 1, len(calls) + 1), [undo, n if rng.random() < 0.6 else [n]])
+    got = effective_plan(calls, flat)
+    assert all(sorted(got[k]) == sorted(plan[k]) for k in plan), (calls, plan, got)
+    spec["plan_calls"] = calls
+
+
 def _gen_plan(rng, spec):
-    """an admissible steady plan (or none)"""
+    """an admissible steady plan (or none) and the history of public calls that sets it up"""
+    _gen_plan_effective(rng, spec)
+    if spec["plan"]:
+        _plan_calls(rng, spec)
+
+
+def _gen_plan_effective(rng, spec):
     spec["plan"] = None
     if spec["linear"]:
         return
@@ -637,17 +745,35 @@ def _gen_plan(rng, spec):
         spec["plan"] = plan
         spec["plan_kind"] = "fix_level_driver"
         return
+    # growth mode: a unit root with drift whose whole steady PATH (level and change) is assigned and fixed by the plan
+    # (SteadyPlan.fix = level and change in growth mode), the drift parameter being endogenized: the change of the
+    # driver is not pinned down by the remaining equations, only by the plan
+    drifters = [e["own"] for e in spec["eqs"] if e["form"] in ("rw", "rwlog") and e["own"] in spec["trend"]]
+    if drifters and not spec["flat"] and spec["family"] != "bgp" and rng.random() < 0.45:
+        own = rng.choice(drifters)
+        for i in range(spec["nv"]):
+            ch = _r(rng, 0.97, 1.06) if own in spec["logs"] else round(rng.choice([-1, 1]) * rng.uniform(0.02, 0.4), 3)
+            spec["start"][own][i] = [_r(rng, 0.5, 3.0), ch]
+        plan["fix_level"].append(own)
+        plan["fix_change"].append(own)
+        plan["endogenize"].append(f"g_{own}")
+        if spec["split"]:
+            spec["split"] = None        # blazer needs a square incidence matrix: qids = equations + 1 here
+        spec["plan"] = plan
+        spec["plan_kind"] = "fix_drift"
+        return
     if rng.random() < 0.45:
         return
     trendy = set(spec["trend"]) | set(spec["followers"])
     stationary = [e["own"] for e in spec["eqs"] if e["own"] not in trendy and e["form"] in
-                  ("lin", "exp", "prod", "ratio", "geo", "loglin", "sum")]
-    kind = rng.choice(["swap", "swap", "fix_level_trend", "fix_change", "fix_level_swap"])
-    if kind == "fix_level_swap" and spec["split"]:
+                  ("lin", "exp", "prod", "ratio", "geo", "loglin", "sum", "rwpin")]
+    pin = {e["own"]: e["pin_param"] for e in spec["eqs"] if e.get("pin_param")}
+    kind = rng.choice(["swap", "swap", "fix_level_trend", "fix_change", "fix_level_swap", "fix_swap"])
+    if kind in ("fix_level_swap", "fix_swap") and spec["split"]:
         spec["split"] = None        # blazer needs a square incidence matrix: qids = equations + 1 here
-    if kind in ("swap", "fix_level_swap") and stationary and spec["family"] != "bgp":
+    if kind in ("swap", "fix_level_swap", "fix_swap") and stationary and spec["family"] != "bgp":
         own = rng.choice(stationary)
-        b = f"b_{own}"
+        b = pin.get(own, f"b_{own}")
         target = _r(rng, 0.6, 2.2)
         ch = (1.0 if own in spec["logs"] else 0.0)
         for i in range(spec["nv"]):
@@ -656,6 +782,8 @@ def _gen_plan(rng, spec):
             plan["exogenize"].append(own)
         else:
             plan["fix_level"].append(own)
+            if kind == "fix_swap" and not spec["flat"]:
+                plan["fix_change"].append(own)
         plan["endogenize"].append(b)
     elif kind == "fix_level_trend" and spec["trend"]:
         own = rng.choice(spec["trend"])
@@ -729,9 +857,16 @@ def build_model(spec):
     plan = None
     if spec["plan"]:
         plan = ir.SteadyPlan(m)
-        for k in ("exogenize", "endogenize", "fix_level", "fix_change"):
-            for nm in spec["plan"][k]:
-                getattr(plan, k)(nm)
+        if spec.get("plan_calls") is not None:
+            for meth, arg in spec["plan_calls"]:
+                if meth in ("swap", "unswap"):
+                    getattr(plan, meth)(*[tuple(a) for a in arg])
+                else:
+                    getattr(plan, meth)(arg)
+        else:
+            for k in ("exogenize", "endogenize", "fix_level", "fix_change"):
+                for nm in spec["plan"][k]:
+                    getattr(plan, k)(nm)
     return m, plan
 
 
@@ -1320,7 +1455,7 @@ def shard_text(nl_cases, lin_cases) -> str:
 FALSIFY_DATES = (-3, -2, -1, 0, 1, 2, 3, 5)
 FALSIFY_RTOL = 1e-8
 # equation forms of the generator whose residual on a steady path is affine in time or geometric = geometric
-EVERY_DATE_FORMS = ("lin", "loglin", "rw", "follow", "rwlog", "followlog", "geo", "meas")
+EVERY_DATE_FORMS = ("lin", "loglin", "rw", "follow", "rwlog", "followlog", "geo", "meas", "rwpin")
 
 
 def _unpack(d, name, i):
